@@ -18,7 +18,7 @@ SerOK(e) == /\ e.std = Ser(e.tx, FALSE)
             /\ e.txid = Rev(e.h)
 
 ItemAPIs == {"input", "inputext", "output"}
-ExactAPIs == {"bytes", "json", "jsonnode", "jsonhex", "jsonnodehex"}
+ExactAPIs == {"bytes", "bytes-retained", "json", "jsonnode", "jsonhex", "jsonnodehex"}
 \* field-wise JSON decoders given whole documents: judged for totality only (a value or an error)
 OpaqueAPIs == {"jsondoc-tx", "jsondoc-input", "jsondoc-output", "jsondoc-utxo", "jsondoc-nodeutxo"}
 Item(r, f) == IF r.ok THEN [ok |-> TRUE, used |-> r.next - 1, item |-> r[f], minimal |-> r.minimal] ELSE r
